@@ -42,7 +42,7 @@ KIND_FILES = {
     "CDIMAGE": ("Disc.png", "x-cd.png", "x-cd2.png"),
     "MUSIC": ("Audio.bin", "song.OGG", "song.mp3x"),
 }
-STATES = ["absent", "emptysimfile", "empty", "exact", "othercase", "missing", "sub-othercase", "SUB-wrongcase", "nosuch", "spaced", "dotted", "updown", "toolong"]
+STATES = ["absent", "emptysimfile", "empty", "exact", "othercase", "missing", "sub-othercase", "SUB-wrongcase", "nosuch", "spaced", "dotted", "updown", "toolong", "nfc-names-nfd-file"]
 SPACED_PREFIX, SPACED_SUFFIX = " ", "　"  # a file whose real name begins with a blank and ends with U+3000
 
 
@@ -221,6 +221,8 @@ def prop_value(kind, state):
         return "nosuch/" + named
     if state == "spaced":
         return SPACED_PREFIX + named + SPACED_SUFFIX
+    if state == "nfc-names-nfd-file":
+        return "caf\u00e9 " + named  # the directory holds the decomposed spelling "cafe\u0301 ..." only (extra "nfd-named")
     if state == "toolong":
         return "a" * 252 + ".png"  # a missing file whose name is longer than most filesystems allow (256 characters)
     if state == "dotted":
@@ -252,7 +254,7 @@ def check_pack_banner(world, inside, beside, order, slash):
             elif got is not None and not exists(fsname, fsobj, got):
                 fails.append({"clause": "pack banner path does not exist", "expected": "existing path", "observed": got, "fs": fsname})
             # the same pack named relative to the current directory (native only): bare name, './name', with a slash
-            if fsname == "nat" and order == 0:
+            if fsname == "nat" and order == 0 and len(beside) <= 1:
                 cwd = os.getcwd()
                 try:
                     os.chdir(join("nat", base, "Songs"))
@@ -277,8 +279,10 @@ def check_case(case):
     try:
         if case["kind"] == "content":
             tree = {n: b"x" for n in case["names"]}
-            if case.get("with_simfile"):
-                tree["song.sm"] = b"#TITLE:t;"
+            ws = case.get("with_simfile")
+            if ws:
+                sname = "song.sm" if ws is True else ws
+                tree[sname] = b"#VERSION:0.83;\n#TITLE:t;\n" if sname.endswith(".ssc") else b"#TITLE:t;"
             paths = world.make_song(tree)
             return check_assets(world, tree, {}, case["order"], paths, given=not case.get("with_simfile"), dirspell=case.get("dirspell", "plain"))
         if case["kind"] == "property":
@@ -314,12 +318,14 @@ def property_tree(kind, state, extra):
             tree.setdefault("sub", {})
         elif e == "named-spaced":
             tree[SPACED_PREFIX + named + SPACED_SUFFIX] = b"x"
+        elif e == "nfd-named":
+            tree["cafe\u0301 " + named] = b"x"
     v = prop_value(kind, state)
     props = {} if v is None else {PROP_OF[kind]: v}
     return tree, props
 
 
-EXTRAS = ["named", "hit", "miss", "sub-named", "sub-empty", "named-spaced"]
+EXTRAS = ["named", "hit", "miss", "sub-named", "sub-empty", "named-spaced", "nfd-named"]
 
 
 def explore_shard(acc, shard):
@@ -333,10 +339,14 @@ def explore_shard(acc, shard):
             subsets = [[]] if first is None else [[NAMES[first]] + list(s) for r in range(0, maxn) for s in itertools.combinations(rest, r)]
             case = None
             for names in subsets:
-                for with_simfile in (False, True):
+                # the simfile in the directory: none (one is given) | song.sm | bg.sm / Song-bn.ssc, whose own names hit a pattern
+                for with_simfile in (False, True, "bg.sm", "Song-bn.ssc"):
                     tree = {n: b"x" for n in names}
                     if with_simfile:
-                        tree["song.sm"] = b"#TITLE:t;"
+                        sname = "song.sm" if with_simfile is True else with_simfile
+                        tree[sname] = b"#VERSION:0.83;\n#TITLE:t;\n" if sname.endswith(".ssc") else b"#TITLE:t;"
+                    if with_simfile not in (False, True) and len(names) > 1:
+                        continue
                     paths = world.make_song(tree)
                     acc.count("states")
                     if len(names) >= 2:
@@ -368,6 +378,8 @@ def explore_shard(acc, shard):
                             continue
                         if state == "updown" and not ("sub-named" in extra or "sub-empty" in extra):
                             continue  # 'sub/..' is only unambiguous when 'sub' exists
+                        if ("nfd-named" in extra) != (state == "nfc-names-nfd-file") and not (state == "exact" and "nfd-named" in extra and len(extra) <= 2):
+                            continue  # the decomposed spelling is only of interest next to the composed one
                         tree, props = property_tree(asset, state, extra)
                         paths = world.make_song(tree)
                         acc.count("states")
